@@ -69,7 +69,7 @@ class Harness(object):
     termination = False  # a budget overrun confirmed by replay is a violation (C01, C17)
     max_decisions = 4000
     max_ticks = 20000
-    solver_timeout_ms = 60000
+    solver_timeout_ms = {'quick': 20000, 'thorough': 60000}
     step_budget = 2000000   # line events allowed for one concrete replay
     case_timeout_s = {'quick': 150, 'thorough': 1500}
 
